@@ -53,6 +53,11 @@ def run(ctx):
                           lambda r: [family.draw_group(r, r.choice(["m3p", "v2x3", "m2x3"]), kind=r.choice(["shampoo", "soap"]), freq=1, start=1,
                                                        tol=r.choice([1, 1, 2]), method=None)],
                           10, ("fail",), (), numeric=False)
+    # bounded-exhaustive: every behaviour of depth 2 (3 in the thorough tier) of three 1-factor blocks with tolerated failures
+    tasks += sp.exhaustive_tasks(ctx, rng, [family.draw_group(rng, "v3p", kind="shampoo", freq=1, start=1, tol=1, method="eigen")],
+                                 2 if quick else 3, ("fail",), (), numeric=False)
+    if not quick:
+        tasks += sp.exhaustive_tasks(ctx, rng, [family.draw_group(rng, "m2x2", kind="soap", freq=1, start=1, tol=1, method="eigh")], 2, ("fail", "nan"), (), numeric=False)
     sp.run_rt(ctx, tasks, owns, "failure_tolerance")
     sp.run_histories(ctx, rng, 24 if quick else 300, make_groups, 30 if quick else 50, ("fail",), (), owns, "failure_tolerance_long")
     sp.run_histories(ctx, rng, 8 if quick else 100, make_groups, 12, ("fail", "nan"), (), owns, "failure_tolerance_long")
